@@ -17,6 +17,44 @@ same fuel — and an include may recurse up to the include limit; both are outsi
 namespace DyntplV
 namespace Term
 
+/-- Iterations a counter loop can still make from counter value `v` (`none`: no bound — the loop steps away from its
+    limit). One more unit of fuel than this ends the loop. -/
+def dist (co so : Op) (v lim : Int) : Option Nat :=
+  if so == .inc then
+    match co with
+    | .lt => some (lim - v).toNat
+    | .ltq => some (lim + 1 - v).toNat
+    | .nq => if v ≤ lim then some (lim - v).toNat else none
+    | .eq => some (if v = lim then 1 else 0)
+    | .gt | .gtq => none
+    | _ => some 0
+  else if so == .dec then
+    match co with
+    | .gt => some (v - lim).toNat
+    | .gtq => some (v + 1 - lim).toNat
+    | .nq => if lim ≤ v then some (v - lim).toNat else none
+    | .eq => some (if v = lim then 1 else 0)
+    | .lt | .ltq => none
+    | _ => some 0
+  else some 1
+
+/-- Budget a counter loop with literal bounds needs (0: not literal, or stepping away from its limit). -/
+def cloopNeed (ls : CLoopSpec) : Nat :=
+  if ls.cntStatic && ls.limStatic then
+    match parseIntLit ls.cntInit, parseIntLit ls.lim with
+    | some a, some b => match dist ls.condOp ls.cntOp a b with
+      | some m => m + 1
+      | none => 0
+    | _, _ => 0
+  else 0
+
+/-- The loop has literal bounds and steps towards its limit. -/
+def cloopLit (ls : CLoopSpec) : Bool :=
+  ls.cntStatic && ls.limStatic &&
+    (match parseIntLit ls.cntInit, parseIntLit ls.lim with
+     | some a, some b => (dist ls.condOp ls.cntOp a b).isSome
+     | _, _ => false)
+
 mutual
 /-- Fuel that suffices for a node. -/
 def needNode : Node → Nat
@@ -27,7 +65,7 @@ def needNode : Node → Nat
   | .case_ _ ch => 1 + needSeq ch
   | .default_ ch => 1 + needSeq ch
   | .rloop _ ch => 1 + needSeq ch
-  | .cloop _ ch => 1 + needSeq ch
+  | .cloop ls ch => 1 + (needSeq ch + cloopNeed ls)
   | .switch _ ch => 1 + (needSeq ch + needSeq ch)
   | _ => 1
 /-- Fuel that suffices for a node list. -/
